@@ -162,6 +162,26 @@ Definition validate_kernel_snapshot (mainnet : bool) (s : ksnap) (found : list (
     end
   end.
 
+(* kernel/self.go validateSnapshotTransaction, as far as the kernel rules go:
+   the members are processed in order; a member whose body is already in
+   persistent storage ([m_stored]) is taken as is, one found only in the cache
+   must pass Validate ([m_valid]); after each, validateKernelSnapshot runs on
+   the map of the members found so far.  The rules do not look at where the
+   body came from. *)
+Record member := { m_hash : N; m_tx : ktx; m_stored : bool; m_valid : bool }.
+
+Fixpoint snapshot_tx_rules (mainnet : bool) (s : ksnap) (finalized : bool) (last : csnap)
+         (type_ok : bool) (found : list (N * ktx)) (ms : list member) : res unit :=
+  match ms with
+  | [] => Ok tt
+  | m :: r =>
+      if negb (m_stored m) && negb (m_valid m) then Err
+      else
+        let found' := (m_hash m, m_tx m) :: found in
+        do _ <- validate_kernel_snapshot mainnet s found' finalized last type_ok;
+        snapshot_tx_rules mainnet s finalized last type_ok found' r
+  end.
+
 (* ---- CONSENSUSSNAPSHOT records ------------------------------------------ *)
 
 (* one record: key (timestamp, snapshot hash); the snapshot's transaction list
